@@ -1,5 +1,7 @@
 """Batch runner: seeded search over many simulated runs on all cores, evidence, findings, replay."""
 import concurrent.futures as cf
+import contextlib
+import io
 import faulthandler
 import hashlib
 import importlib
@@ -225,7 +227,8 @@ def run_batch(prop_id, tier, batch_seed, runs=None, workers=None, wall_cap=None,
                 continue
             path = os.path.join(fixed_dir, name)
             try:
-                rp, r, same = replay_file(path)
+                with contextlib.redirect_stdout(io.StringIO()):
+                    rp, r, same = replay_file(path)
             except Exception as e:
                 harness_errors.append(f"regression replay {name}: " + "".join(traceback.format_exception(e)))
                 continue
